@@ -110,6 +110,27 @@ Theorem C13_no_deadlock_any_wellformed_stream : forall (progs : list (list lk_op
 Proof. exact lk_progress. Qed.
 Print Assumptions C13_no_deadlock_any_wellformed_stream.
 
+(* the unlocked read in coap_lock_lock_func (known finding C13-F3): thread i evaluates
+   "global_lock.in_callback && coap_thread_pid == global_lock.pid" before it has the mutex.
+   Whatever the other threads do between its read of in_callback (state s1), its read of pid
+   (state s2) and the moment it acts, the outcome is the one of the atomic test in s; if the test
+   is true (i is the re-entering owner) no other thread can move at all. *)
+Theorem C13_racy_read_safe : forall (progs : list (list lk_op)),
+  Forall (fun p => lk_wfprog p = true) progs -> forall s s1 s2 i,
+  lk_reach (lk_init progs) s -> lk_others i s s1 -> lk_others i s1 s2 ->
+  lk_reentry_test i s1 s2 = lk_reentry_test i s s /\
+  lk_reentry_test i s2 s2 = lk_reentry_test i s s /\
+  (lk_reentry_test i s s = true -> s1 = s /\ s2 = s).
+Proof. exact lk_racy_read_safe. Qed.
+Print Assumptions C13_racy_read_safe.
+
+(* while a thread owns the mutex, no other thread can take any step *)
+Theorem C13_owner_excludes : forall (progs : list (list lk_op)),
+  Forall (fun p => lk_wfprog p = true) progs -> forall s i j,
+  lk_reach (lk_init progs) s -> lk_pid (lk_l s) = lk_tid i -> j <> i -> lk_step j s = None.
+Proof. exact lk_owner_excludes. Qed.
+Print Assumptions C13_owner_excludes.
+
 (* the two defects that were in the tree (fixed by /repo commits 0dc3221 and b19334a): with the
    old macro / the old build switch the faithful model violates the property; the witnesses are
    two-thread schedules, kept in corpus/C13 and replayed on the real code on every run *)
